@@ -606,7 +606,12 @@ pub fn run(ctx: &Ctx) {
     };
     run_spaces(ctx);
     if let Some(h) = longevity {
-        let f = h.join().unwrap_or_default();
+        // a scenario that a defect has wedged must not hold the verdict back
+        let waited = std::time::Instant::now();
+        while !h.is_finished() && waited.elapsed() < std::time::Duration::from_secs(40) {
+            std::thread::sleep(std::time::Duration::from_millis(100));
+        }
+        let f = if h.is_finished() { h.join().unwrap_or_default() } else { vec![finding("C14|longevity|scenario-does-not-finish", "a long-lived-service scenario has not finished long after its script ended: a call into the service never returned".to_string(), json!({"kind": "socket-race", "scenario": "unfinished"}))] };
         let mut t = Tally::default();
         t.evals += 2;
         t.nontrivial += 2;
